@@ -11,6 +11,20 @@ package database
 //@   requires q != nil
 //@   event setTxPointer(arg.Eon, arg.Value, arg.Age.Int64, arg.Age.Valid)
 //@
+//@ // ghost trace of the trigger rows the keys handlers read back: (eon = keyper config index, slot, tx pointer)
+//@ evdecl setTrigger(Int, Int, Int)
+//@ func (*Queries).SetCurrentDecryptionTrigger
+//@   trusted
+//@   requires q != nil
+//@   event setTrigger(arg.Eon, arg.Slot, arg.TxPointer)
+//@
+//@ // A-db-4: a stored trigger row carries what triggerDecryption wrote: a slot and a tx pointer that are non-negative,
+//@ // the pointer below 2^31 (queue positions)
+//@ func (*Queries).GetCurrentDecryptionTrigger
+//@   trusted
+//@   requires q != nil
+//@   ensures ret1 == nil ==> (ret0.Slot >= 0 && ret0.TxPointer >= 0 && ret0.TxPointer <= 2147483647)
+//@
 //@ // A-db-2: stored gas limits are non-negative (they come from uint256 values filtered with IsInt64)
 //@ func (*Queries).GetTransactionSubmittedEvents
 //@   trusted
